@@ -1,5 +1,6 @@
 """C15 — calls follow the runtime registry; custom functions receive evaluated arguments.
 Theorems: lean/JmesVerif/Props/C15.lean."""
+import re
 import common as C
 import gen as G
 import streams as S
@@ -15,14 +16,38 @@ TRUSTED_BASE = [
     "histories on a fresh Runtime followed by call expressions; custom functions return {id, args} so identity and received arguments are observable",
 ]
 ASSUMPTIONS = TRUSTED_BASE
-RULE = ("histories of 0-8 operations over a small name pool (builtin names and new names; custom functions with ids and one of 6 signatures "
+RULE = ("histories of 0-8 operations over a small name pool (builtin names and new names; custom functions with ids and one of 9 signatures (three with typed variadic tails) "
         "incl. none), then 3-6 call expressions (registered, shadowed, deregistered, unknown names; nested calls; expref arguments; wrong "
         "arity/types). Expected name binding is also computed by the checker itself (last live registration). Non-trivial = distinct "
         "history with at least one register and one query that reaches a custom function.")
 
 NAMES = ["abs", "length", "max", "sort_by", "foo", "bar", "id", "map"]
 QUERIES = ["{f}(@)", "{f}(a, b)", "{f}(&a, @)", "{f}()", "{f}(`1`, 'x')", "{f}({g}(@))", "[{f}(@), {g}(a)]", "{f}(@, &{g}(@))",
-           "a.{f}(@)", "{f}(`[1,2]`)", "{f}(`[\"a\"]`)", "{f}(*)", "{f}(@).args[0]"]
+           "a.{f}(@)", "{f}(`[1,2]`)", "{f}(`[\"a\"]`)", "{f}(*)", "{f}(@).args[0]",
+           # variadic tails: every argument after the declared ones is checked against the variadic type, not only the first
+           "{f}('a', 'b', 'c')", "{f}('a', 'b', `1`)", "{f}('a', 'b', 'c', @)", "{f}(`1`, `2`, 'x')", "{f}(`1`, `2`, `3`, `null`, a)",
+           "{f}(`1`, `null`, `2`, 'x')", "{f}('a', `1`)", "{f}(`1`, `2`, `3`, `4`)"]
+
+
+# the harness's signature menu, restated for the checker-side guard oracle: (declared types, variadic type)
+SIGS = {1: (["any"], None), 2: (["number", "string"], None), 4: (["any"], "any"), 7: (["string"], "string"), 8: ([], "number"),
+        9: (["number"], "number|null"), 6: ([], None)}
+LIT = re.compile(r"^(?:'[^']*'|`-?[0-9]+`|`null`)$")
+
+
+def lit_type(a):
+    return "string" if a[0] == "'" else ("null" if a == "`null`" else "number")
+
+
+def guard_expect(sig, args):
+    """True / False = validation of literal arguments succeeds / fails; None = not decidable here"""
+    if sig not in SIGS or not all(LIT.match(a) for a in args):
+        return None
+    decl, var = SIGS[sig]
+    if len(args) < len(decl) or (var is None and len(args) > len(decl)):
+        return False
+    types = decl + [var] * (len(args) - len(decl))
+    return all(t == "any" or lit_type(a) in t.split("|") for t, a in zip(types, args))
 
 
 def spec_binding(ops):
@@ -48,14 +73,16 @@ def gen(ctx):
         for _ in range(rng.randrange(0, 9)):
             r = rng.random()
             if r < 0.55:
-                ops.append(("r", rng.choice(NAMES), rng.randrange(1, 50), rng.randrange(0, 7)))
+                ops.append(("r", rng.choice(NAMES), rng.randrange(1, 50), rng.randrange(0, 10)))
             elif r < 0.8:
                 ops.append(("d", rng.choice(NAMES)))
             else:
                 ops.append(("b",))
         qs = []
         for _ in range(rng.randrange(3, 7)):
-            qs.append(rng.choice(QUERIES).format(f=rng.choice(NAMES + ["nope"]), g=rng.choice(NAMES)))
+            reg = [o[1] for o in ops if o[0] == "r"]
+            f = rng.choice(reg) if reg and rng.random() < 0.6 else rng.choice(NAMES + ["nope"])
+            qs.append(rng.choice(QUERIES).format(f=f, g=rng.choice(reg) if reg and rng.random() < 0.5 else rng.choice(NAMES)))
         doc = G.rand_doc(rng, 2)
         cases.append((ops, doc, qs))
     return cases
@@ -100,6 +127,16 @@ def run(ctx):
                         ctx.violation("registry", [list(ops), doc, qs], f"{q}: {ca[:200]}", f"unknown-function {f} (not registered at this point)")
                         continue
                 elif bind[0] == "custom":
+                    argtxt = q[len(f) + 1:-1] if q.endswith(")") else None
+                    exp = guard_expect(bind[2], [x.strip() for x in argtxt.split(",")] if argtxt else []) if argtxt is not None else None
+                    if exp is not None and ca.startswith("ok ") != exp:
+                        stats["guard_decided"] = stats.get("guard_decided", 0) + 1
+                        ctx.violation("registry", [list(ops), doc, qs], f"{q}: {ca[:200]}",
+                                      ("the custom function runs (arguments satisfy its signature)" if exp else
+                                       "an arity / invalid-type error: the arguments do not satisfy the custom function's signature, so it must not run"))
+                        continue
+                    if exp is not None:
+                        stats["guard_decided"] = stats.get("guard_decided", 0) + 1
                     if ca.startswith("ok "):
                         hit = True
                         stats["custom_hits"] += 1
